@@ -84,15 +84,22 @@ def target_name(v, g=None):
     return "str:" + str(v)
 
 
-def _link_flag(ol):
+def _link_flag(ol, path_overlap=None):
     """(link key, direction flag) of an entry of path.links.  For a link joining a segment end to
     itself (hairpin) both directions visit the same oriented segments and the flag only selects the
-    spelling of the overlap: it is not part of the observation (DESIGN 3.1)."""
+    spelling of the overlap: it is part of the observation only when the path spells that overlap and
+    the spelling tells the two directions apart (DESIGN 3.1)."""
     n, o = target_name(ol)
     try:
         l = ol.line
         if l.from_segment is l.to_segment and l.from_orient != l.to_orient:
-            o = "+/-"
+            decided = False
+            if path_overlap is not None and not gfapy.is_placeholder(path_overlap) and \
+                    not l.virtual and not gfapy.is_placeholder(l.overlap):
+                a, b = str(l.overlap), str(l.overlap.complement())
+                decided = a != b and str(path_overlap) in (a, b)
+            if not decided:
+                o = "+/-"
     except Exception:
         pass
     return (n, o)
@@ -127,7 +134,15 @@ def obs_line(x, g=None):
             refs[f] = "unobservable:" + type(e).__name__
     if rt == "P":
         try:
-            refs["links"] = [_link_flag(ol) for ol in x.links]
+            lks = list(x.links)
+            try:
+                ovs = list(x.overlaps)
+            except Exception:
+                ovs = []
+            if len(ovs) != len(lks) and len(ovs) != len(lks) + 0:
+                ovs = [None] * len(lks)
+            refs["links"] = [_link_flag(ol, ovs[i] if i < len(ovs) and len(ovs) >= len(lks) else None)
+                             for i, ol in enumerate(lks)]
         except Exception as e:
             refs["links"] = "unobservable:" + type(e).__name__
     d["refs"] = refs
